@@ -140,6 +140,29 @@ Theorem C14_merged_message_example :
 Proof. exact merged_message_example. Qed.
 Print Assumptions C14_merged_message_example.
 
+(* F16 (known finding): "every listing the relay emits is read by the published client" is false.
+   A report's expiry is string(MarshalText(exp)), the empty string when the token expires after the
+   year 9999; and a list with one report whose expiry the client's time parser refuses is refused
+   as a whole ... *)
+Theorem C14_unreadable_expiry_spoils_the_list :
+  forall lr ptime ncanon rs s r,
+    encode_reports rs = Some s -> In r rs -> ptime (quote_body true (r_expiresAt r)) = None ->
+    decode_reports lr ptime ncanon s = None.
+Proof. exact unreadable_expiry_lemma. Qed.
+Print Assumptions C14_unreadable_expiry_spoils_the_list.
+
+(* ... witness: the same ordinary connection is readable alone and unreadable next to a
+   connection whose expiry text is empty (well-formed JSON all the same) *)
+Theorem C14_client_reads_every_listing_refuted :
+  let ordinary := far_member 1 (bytes_of "2023-03-10T15:04:45Z") in
+  let far := far_member 2 [] in
+  (exists s, encode_reports [report_of_member 0 ordinary] = Some s /\
+             exists l, decode_reports (fun r => r) far_ptime (fun l => Some l) s = Some l /\ length l = 1%nat) /\
+  (exists s, encode_reports (map (report_of_member 0) [ordinary; far]) = Some s /\ json_wf s = true /\
+             decode_reports (fun r => r) far_ptime (fun l => Some l) s = None).
+Proof. exact far_expiry_refuted_lemma. Qed.
+Print Assumptions C14_client_reads_every_listing_refuted.
+
 (* non-vacuity: a history with odd metadata (quotes, an invalid byte, U+2028, a 4-byte rune), one
    leave and one eviction; the listing encodes, is well-formed, and decodes to two reports whose
    topics and user agents are the sanitized ones *)
